@@ -234,6 +234,10 @@ def read_fallbacks(ctx):
             if t.kind == 'test' and lab == 'T' and isinstance(t.ast, ast.Compare) and isinstance(t.ast.ops[0], ast.Eq) and unparse(t.ast.left) == f"{r.ast.value.id}.name":
                 ok = True
     res.check(ok, 'R-TABLE.read', f.fq, "a present child is returned (matched by its element name)", key='R-TABLE.read|child')
+    gated = [r for r in child_rets if any(t.kind == 'test' and 'possible_children_names' in unparse(t.ast) for t, lab in dom.guards_of(g, r))]
+    res.check(bool(child_rets) and not gated, 'R-TABLE.read', f.fq, "the search among the present children does not depend on the container listing the name (an unchecked "
+              "element holds children its type does not list; find_child and to_string show them)",
+              fail_detail='; '.join(f"line {r.line}: `{r.text()}` only under a test of possible_children_names" for r in gated[:2]), key='R-TABLE.read|child-ungated')
     # 4. no implicit fall-through: every normal exit is a return
     preds = [p for p, _ in g.pred[g.exit]]
     res.check(all(p.kind == 'return' for p in preds), 'R-TABLE.read', f.fq, "every other name ends in `raise AttributeError` (no silent None)",
